@@ -1,7 +1,7 @@
 // C03: property values stay attached to their entities through every renumbering; new entities get the default; exactly one
 // element per entity slot.  Values are SYMBOLIC; the expected position of every value comes from the reference model's identity
 // tracking (refmodel.h), compared at symbolic probe indices.
-// shard params: 0 base, 1 deletion mode, 2 op, 3 chunk, 4 pre-op, 5 pre-op argument index.
+// shard params: 0 base, 1 deletion mode, 2 op, 3 chunk, 4 pre-op, 5 pre-op argument index, 7 bottom-up kinds switched OFF (bit3: before building).
 #include "ops.h"
 #include "refmodel.h"
 #ifndef NCASES
@@ -12,10 +12,12 @@ static int  o_iv[MAXV], o_ie[MAXE], o_ihe[2 * MAXE], o_if[MAXF], o_ihf[2 * MAXF]
 static bool o_bv[MAXV], o_bhf[2 * MAXF];
 
 static __attribute__((noinline)) void do_case(unsigned i) {
-  unsigned base = v_param(0), mode = v_param(1), op = v_param(2), chunk = v_param(3), pre = v_param(4), pre_idx = v_param(5);
+  unsigned base = v_param(0), mode = v_param(1), op = v_param(2), chunk = v_param(3), pre = v_param(4), pre_idx = v_param(5), bu_off = v_param(7);
   TopologyKernel m;
   set_mode(m, mode);
+  if (bu_off & 8) apply_op(m, OP_BU_OFF, bu_off & 7, 0);
   build_base(m, base);
+  if (bu_off && !(bu_off & 8)) apply_op(m, OP_BU_OFF, bu_off & 7, 0);
   auto iv = m.request_vertex_property<int>("iv", -7);
   auto ie = m.request_edge_property<int>("ie", -7);
   auto ihe = m.request_halfedge_property<int>("ihe", -7);
